@@ -15,7 +15,7 @@ package console
 //@ spec vgaCell(ch uint8, fg uint8, bg uint8) uint16 = (((uint16(bg) << 4) | uint16(fg)) << 8) | uint16(ch)
 
 //@ func (cons *VgaTextConsole) Write(ch byte, fg uint8, bg uint8, x uint32, y uint32)
-//@   property C19
+//@   property C19 C18
 //@   requires wfVga(cons)
 //@   modifies elems(uint16)
 //@   ensures outside: !(x >= 1 && x <= cons.width && y >= 1 && y <= cons.height) ==> forall(i, int, 0 <= i && i < len(cons.fb) ==> cons.fb[i] == old(cons.fb[i]))
@@ -30,7 +30,7 @@ package console
 //@ spec clearCell(c *VgaTextConsole, fg uint8, bg uint8) uint16 = (((uint16(bg) << 4) | uint16(fg)) << 8) | c.clearChar
 
 //@ func (cons *VgaTextConsole) Fill(x uint32, y uint32, width uint32, height uint32, fg uint8, bg uint8)
-//@   property C19
+//@   property C19 C18
 //@   requires wfVga(cons)
 //@   modifies elems(uint16)
 //@   ensures cells: forall(cx, uint32, cy, uint32, cx >= 1 && cx <= cons.width && cy >= 1 && cy <= cons.height ==> cons.fb[(cy-1)*cons.width + (cx-1)] == ite(inRect(cons, old(x), old(y), old(width), old(height), cx, cy), clearCell(cons, fg, bg), old(cons.fb[(cy-1)*cons.width + (cx-1)])))
@@ -46,7 +46,7 @@ package console
 //@   loop 2 invariant cols: forall(cx, uint32, cy, uint32, cx >= 1 && cx <= cons.width && cy >= 1 && cy <= cons.height ==> cons.fb[(cy-1)*cons.width + (cx-1)] == ite(inRect(cons, old(x), old(y), old(width), old(height), cx, cy) && (cy < y + (h0 - height) || (cy == y + (h0 - height) && cx - 1 < colOffset - (y - 1 + (h0 - height))*cons.width)), clr, old(cons.fb[(cy-1)*cons.width + (cx-1)])))
 
 //@ func (cons *VgaTextConsole) Scroll(dir ScrollDir, lines uint32)
-//@   property C19
+//@   property C19 C18
 //@   requires wfVga(cons)
 //@   modifies elems(uint16)
 //@   ensures ignored: lines == 0 || lines > cons.height || (dir != ScrollDirUp && dir != ScrollDirDown) ==> forall(j, int, 0 <= j && j < len(cons.fb) ==> cons.fb[j] == old(cons.fb[j]))
@@ -134,7 +134,7 @@ package console
 
 // Fill in character cells: the same clamping/clipping as the text console, in units of glyphs
 //@ func (cons *VesaFbConsole) Fill(x uint32, y uint32, width uint32, height uint32, fg uint8, bg uint8)
-//@   property C19
+//@   property C19 C18
 //@   requires wfVesa(cons)
 //@   modifies elems(uint8)
 //@   ensures nofont: cons.font == nil ==> forall(i, int, 0 <= i && i < len(cons.fb) ==> cons.fb[i] == old(cons.fb[i]))
@@ -186,7 +186,7 @@ package console
 // Write: out-of-grid coordinates (or no font) change nothing; otherwise only the bytes of the
 // addressed cell's pixel block change (row padding and logo rows included in "nothing else")
 //@ func (cons *VesaFbConsole) Write(ch byte, fg uint8, bg uint8, x uint32, y uint32)
-//@   property C19
+//@   property C19 C18
 //@   requires wfVesa(cons)
 //@   modifies elems(uint8)
 //@   ensures outside: x < 1 || x > cons.widthInChars || y < 1 || y > cons.heightInChars || cons.font == nil ==> forall(i, int, 0 <= i && i < len(cons.fb) ==> cons.fb[i] == old(cons.fb[i]))
@@ -197,7 +197,7 @@ package console
 // pitch-wide rows are copied
 //@ spec rowsOf(c *VesaFbConsole, lines uint32) uint32 = lines*c.font.GlyphHeight
 //@ func (cons *VesaFbConsole) Scroll(dir ScrollDir, lines uint32)
-//@   property C19
+//@   property C19 C18
 //@   requires wfVesa(cons)
 //@   modifies elems(uint8)
 //@   ensures ignored: cons.font == nil || lines == 0 || lines > cons.heightInChars || (dir != ScrollDirUp && dir != ScrollDirDown) ==> forall(j, int, 0 <= j && j < len(cons.fb) ==> cons.fb[j] == old(cons.fb[j]))
